@@ -1,6 +1,6 @@
 """E3 rules: R-OFFSETS, R-WIRE (argument roles in the clone command), R-HASHEQ."""
 from ..facts import callee_q, callee_def
-from ..terms import Terms, simplify, has_call, has_field, show, walk, freeze, calls_in
+from ..terms import Terms, simplify, has_call, has_call_deep, has_field, show, walk, freeze, calls_in
 from ..typestate import coroutine_of
 
 ARCH_DESC = 'bitar::archive::ChunkDescriptor'
@@ -119,6 +119,15 @@ def arch_for(single, per_frame, b, bi):
     if single is not None or len(per_frame) <= 1:
         return single
     return per_frame.get(frame_of(b, bi))
+
+
+def _with_coroutine(facts, g):
+    """calls of a function and, for an async fn, of its coroutine"""
+    out = list(g.calls())
+    cb, pm = coroutine_of(facts, g)
+    if cb and cb in facts.bodies:
+        out += list(facts.bodies[cb].calls())
+    return out
 
 
 def run(facts, cg):
@@ -256,6 +265,44 @@ def run(facts, cg):
                         finding('R-WIRE', b.q, 'scan-other-archive:inline', 'a scan at %s uses the %s of a different archive value' % (t['loc'], what))
         if scans < 4:
             finding('R-WIRE', b.q, 'floor', 'expected the output scan and the seed scans (config + hash length) to be found, got %d role sites: cannot decide' % scans)
+    # what a scan (of a seed, of the prior output) sees is every chunk of that one input: nothing thins the chunker's stream
+    # before it is hashed and looked up (the input's own short last chunk is the source's last chunk when the two end alike),
+    # and no two inputs are glued into one stream (the chunker's state would run across the join)
+    THIN = ('filter', 'skip', 'take', 'step_by', 'skip_while', 'take_while', 'take_until', 'filter_map')
+    n_sc = 0
+    for b in facts.bodies.values():
+        if b.crate != 'bita' or b.generated or '::clone_cmd::' not in b.id:
+            continue
+        for bi, t in b.calls():
+            if 'q' not in t['callee'] or not t['args']:
+                continue
+            q = callee_q(t)
+            if q == 'bitar::chunker::config::Config::new_chunker':
+                n_sc += 1
+                rd = simplify(T.resolve_env(simplify(T.of_operand(b, t['args'][1])))) if len(t['args']) > 1 else None
+                if rd is not None and (has_call(rd, 'AsyncReadExt::chain') or has_call(rd, '::chain')):
+                    finding('R-WIRE', b.q, 'scan-inputs-chained', 'the chunker at %s scans several inputs glued into one stream: the chunk that ends one input and the '
+                            'chunk that starts the next are never found' % t['loc'])
+            if q.split('::')[-1] in THIN and ('StreamExt' in t['callee']['q'] or 'Iterator' in t['callee']['q']):
+                recv = simplify(T.of_operand(b, t['args'][0]))
+                if has_call(recv, 'Config::new_chunker'):
+                    finding('R-WIRE', b.q, 'scan-thinned:' + q.split('::')[-1], 'the stream of chunks cut from a seed / the prior output is thinned with %s at %s before it is '
+                            'hashed: chunks the input holds are not found (an in-place last chunk is fetched and written again)' % (q.split('::')[-1], t['loc']))
+    # the reader handed to a scan helper is one input, too
+    for b in facts.bodies.values():
+        if b.crate != 'bita' or b.generated or '::clone_cmd::' not in b.id:
+            continue
+        for bi, t in b.calls():
+            d = t['callee'].get('rdef') or t['callee'].get('def')
+            if d in facts.bodies and facts.bodies[d].crate == 'bita' and any('q' in t2['callee'] and callee_q(t2) == 'bitar::chunker::config::Config::new_chunker'
+                                                                              for _, t2 in _with_coroutine(facts, facts.bodies[d])):
+                for a in t['args']:
+                    at = simplify(T.resolve_env(simplify(T.of_operand(b, a))))
+                    if has_call_deep(T, b, at, 'AsyncReadExt::chain'):
+                        finding('R-WIRE', b.q, 'scan-inputs-chained', 'the input handed to the scan at %s is several inputs glued into one stream: the chunk that ends one '
+                                'input and the chunk that starts the next are never found' % t['loc'])
+    if n_sc < 2:
+        finding('R-WIRE', '-', 'floor-scans', 'expected the chunkers of the seed scan and the output scan in the clone command, found %d (cannot decide)' % n_sc)
     # inside the fetch helper: chunk_stream's argument is output.chunks() of the same output that is fed
     for (b, bi, t) in cg.calls_to(CHUNK_STREAM):
         if b.crate != 'bita':
@@ -283,7 +330,7 @@ def run(facts, cg):
     # filtered, in table order - and the n-th returned buffer is paired with the n-th descriptor of that same list
     REORDER = ('sort', 'sort_by', 'sort_by_key', 'sort_unstable', 'sort_unstable_by', 'sort_unstable_by_key', 'sort_by_cached_key', 'dedup',
                'dedup_by', 'dedup_by_key', 'reverse', 'retain', 'retain_mut', 'swap', 'swap_remove', 'rotate_left', 'rotate_right', 'drain',
-               'truncate', 'remove', 'insert', 'split_off', 'rev')
+               'truncate', 'remove', 'insert', 'split_off', 'rev', 'take', 'skip', 'step_by', 'take_while', 'skip_while', 'nth', 'last', 'min_by_key', 'max_by_key')
     roles = facts.fields_by_role('bitar::archive::Archive')
     vecs = roles.get('alloc::vec::Vec') or []
     n_fl = 0
@@ -334,6 +381,21 @@ def run(facts, cg):
     if n_fl < 1:
         finding('R-FETCHLIST', '-', 'floor', 'the read_chunks call of Archive::chunk_stream was not found (cannot decide)')
 
+    # a hash sum is its first `length` bytes: two sums are compared over those, never as whole backing arrays (truncate() lowers the
+    # length and leaves the digest's tail in place - every archive with a hash length below 64 would fail to verify)
+    for b in facts.bodies.values():
+        if not (b.q.startswith('<bitar::hashsum::HashSum as core::cmp::PartialEq') and b.q.endswith('::eq')) and not \
+                (b.raw.get('parent') and str(facts.original.get(b.raw['parent']).q if facts.original.get(b.raw['parent']) else '').startswith('<bitar::hashsum::HashSum as core::cmp::PartialEq')):
+            continue
+        for bi, t in b.calls():
+            if 'q' in t['callee'] and t['callee']['q'] in ('core::cmp::PartialEq::eq', 'core::cmp::PartialEq::ne') and t['args']:
+                at = b.lty(t['args'][0]['pl']['l']) if t['args'][0]['k'] in ('copy', 'move') else {}
+                inner = at
+                while inner.get('k') in ('ref', 'rawptr') and inner.get('args'):
+                    inner = b.ty(inner['args'][0])
+                if inner.get('k') == 'array':
+                    finding('R-HASHEQ', b.q, 'whole-array-compare', 'two hash sums are compared as whole backing arrays at %s: after truncate() the bytes beyond the length differ, '
+                            'equal sums compare unequal' % t['loc'])
     # ---------------------------------------------------------------- R-HASHEQ
     from .r_steps import hash_compare_sites, _pointee_adt, HASHSUM
     nsites = 0
